@@ -174,6 +174,47 @@ theorem routes_same_target :
   rw [← opGroups_flatten] at h₁ h₂
   exact tableOK_sound Route.opKey shapeOf opGroups opGroups_ok r₁ h₁ r₂ h₂ hk
 
+/-! #### keyword arguments across forms
+
+`out=` (ndarray or Tensor) and augmented assignment only choose where the result is written: within one family of forms
+(no extra keyword / `where=` / `dtype=float32` / `dtype=float16`) every spelling must hand the same keyword arguments to the
+`Operation` — e.g. `dtype=` must reach the op whether `out` is `None`, an ndarray or a Tensor. -/
+
+def famOf (r : Route) : Nat := formFamily.getD r.form 0
+
+def famKey (r : Route) : Nat := r.opKey * 8 + famOf r
+
+/-- per call: class, operands (after `canon`) and the options that are arguments of the computation -/
+def coreOf (r : Route) : List (Nat × List Arg × List Nat) :=
+  (r.sigs.map canon).map fun c => (c.target, c.operands, c.options.filter fun o => !markerOptions.contains o)
+
+def gfam : List Route → Nat
+  | [] => 0
+  | r :: _ => famOf r
+
+/-- the form groups of one (operation, operand classes) entry merged by family -/
+def splitFam (g : List (List Route)) : List (List Route) :=
+  ((List.range 8).map fun f => (g.filter fun fg => decide (gfam fg = f)).flatten).filter fun l => !l.isEmpty
+
+def famGroups : List (List Route) := table.flatMap splitFam
+
+theorem famGroups_flatten : famGroups.flatten = routes := by decide +kernel
+
+theorem famGroups_ok : tableOK famKey coreOf famGroups = true := by decide +kernel
+
+theorem routes_fam_bounded : routes.all (fun r => decide (famOf r < 8)) = true := by decide +kernel
+
+/-- **C11, keyword arguments across forms.**  Spellings of one operation on the same operand classes within one family of
+    forms reach the same classes with the same operands and the same computation options, wherever the result is written. -/
+theorem routes_same_options :
+    ∀ r₁ ∈ routes, ∀ r₂ ∈ routes, r₁.op = r₂.op ∧ r₁.probe = r₂.probe ∧ famOf r₁ = famOf r₂ → coreOf r₁ = coreOf r₂ := by
+  intro r₁ h₁ r₂ h₂ hs
+  have hb := List.all_eq_true.mp routes_bounded
+  have hk : r₁.opKey = r₂.opKey := (opKey_inj (hb r₁ h₁) (hb r₂ h₂)).mpr ⟨hs.1, hs.2.1⟩
+  have hk' : famKey r₁ = famKey r₂ := by unfold famKey; rw [hk, hs.2.2]
+  rw [← famGroups_flatten] at h₁ h₂
+  exact tableOK_sound famKey coreOf famGroups famGroups_ok r₁ h₁ r₂ h₂ hk'
+
 /-- the table is not vacuous: every registered override has a probe, every group compares at least two spellings, and
     there are routes of every kind of spelling -/
 theorem table_complete_forms :
